@@ -26,8 +26,8 @@ def gen_cases(ctx: Ctx) -> list:
                 cases.append(dict(kind="flat", cap=cap, N=2, adds=list(order), samples=[(n, None) for n in range(1, L + 1)],
                                   seed=rng.randrange(2 ** 31), vmapped=False))
     kinds = ["flat", "dict", "tuple_boxact"]
-    for i in range(ctx.pick(60, 400)):
-        cap = rng.choice(ctx.pick([2, 3, 8], [1, 2, 3, 4, 5, 8, 16]))
+    for i in range(ctx.pick(60, 240)):
+        cap = rng.choice(ctx.pick([2, 3, 8], [1, 2, 3, 5, 8, 16]))
         N = rng.choice([1, 1, 2, 3])
         wraps = rng.choice([0, 1, 2, 3, 5])
         L = min(cap * (wraps + 1) + rng.randint(0, cap), 48)
@@ -55,8 +55,14 @@ def violations_from(v, traces, cases):
 
 
 def record(cases):
+    import jax
     from .. import drive_replay as dr
-    return [dr.record_replay(c["kind"], c["cap"], c["N"], c["adds"], c["samples"], c["seed"], c["vmapped"]) for c in cases]
+    out = []
+    for i, c in enumerate(cases):
+        out.append(dr.record_replay(c["kind"], c["cap"], c["N"], c["adds"], c["samples"], c["seed"], c["vmapped"]))
+        if i % 40 == 39:
+            jax.clear_caches()       # every (kind, capacity, rings, batch size) is its own XLA program: do not let them pile up
+    return out
 
 
 def run(ctx: Ctx) -> Report:
